@@ -150,6 +150,29 @@ Proof.
   rewrite Hs. apply avl_depth_bound, Ha.
 Qed.
 
+(* "after EVERY Add or Remove", spelled out with run_app: the history [ops] passes, after
+   its first k operations, through the state [ts1] reached by the prefix [firstn k ops]
+   (the rest of the history continues from ts1), and every tree of ts1 is balanced and
+   shallow *)
+Theorem history_balanced_after_every_op ops k :
+  exists ts1 xs1 ts2 xs2,
+    run_history eqb cmp (firstn k ops) = (ts1, xs1) /\
+    run eqb cmp ts1 (skipn k ops) = (ts2, xs2) /\
+    run_history eqb cmp ops = (ts2, xs1 ++ xs2) /\
+    forall h t, nth_error ts1 h = Some t ->
+      avl (root t) /\ cached_ok (root t) /\ Tree_Len t = size (root t) /\
+      2 ^ (10000 * (height (root t) + 1)) <= (Tree_Len t + 2) ^ 14405.
+Proof.
+  pose proof (run_app (firstn k ops) (skipn k ops) [empty_Tree]) as Happ.
+  rewrite firstn_skipn in Happ.
+  pose proof (history_balanced (firstn k ops)) as Hb.
+  unfold run_history in *.
+  destruct (run eqb cmp [empty_Tree] (firstn k ops)) as [ts1 xs1].
+  destruct (run eqb cmp ts1 (skipn k ops)) as [ts2 xs2] eqn:E2.
+  exists ts1, xs1, ts2, xs2. cbn [fst] in Hb.
+  split; [reflexivity|]. split; [exact E2|]. split; [exact Happ|]. exact Hb.
+Qed.
+
 End Hist.
 
 (* helpers for the evaluated examples of Props/C02.v *)
